@@ -479,7 +479,7 @@ impl Property for C20 {
         Meta {
             level: "fault_enumeration",
             rule: "each run writes one file (empty, random bytes, random words behind a valid header, or a producer module - clean or with 1-3 storage faults, often with GLSL/OpenCL ext-inst imports and OpConstants of undeclared type) and executes the real rspirv-dis binary built from /repo on it; a share of the runs executes it under strace with EINTR injected into the 1st or 2nd read(2) on the input file (both read calls the program issues are covered); exit status 0, no signal, no 'panicked' on stderr, stdout byte-identical to library disassembly + newline or the error's Display + newline; abstract trace = (fault kinds, content class, injection index, size bucket); every run is non-trivial (a real process execution)",
-            lanes: "ext-inst and late-type hot spots, LF-then-invalid-UTF-8 strings, byte-swapped + truncated files, function-less modules, giant strings with dense multi-byte content, input through a pipe (/dev/stdin, 4 KiB pieces), files of 8190..2.2e6 instructions (> 16 MiB); a loading error must be one line; foreign bytes around the content (the tool's own textual output, \"; SPIR-V\", BOM, #!, gzip / reversed magic in front; LF / CRLF runs, NULs, blank, Ctrl-Z behind)",
+            lanes: "ext-inst and late-type hot spots, LF-then-invalid-UTF-8 strings, byte-swapped + truncated files, function-less modules, giant strings with dense multi-byte content, input through a pipe (/dev/stdin, 4 KiB pieces), files of 8190..2.2e6 instructions (> 16 MiB); a loading error must be one line; foreign bytes around the content (the tool's own textual output, \"; SPIR-V\", BOM, #!, gzip / reversed magic in front; LF / CRLF runs, NULs, blank, Ctrl-Z behind); files around 64 KiB / 1 MiB (1 run in 150) and beyond 16 MiB (1 in 1500) with six header variants, ending cleanly or in an error; disassemblies of 10 000 / 65 536 / 100 000 / 131 072 / 200 000 lines",
             triple_measure: "(content class empty/loadable/rejected, EINTR injection index, exit code)",
             item_measure: "n/a",
             assumptions: &[
